@@ -34,6 +34,7 @@ Anything else raises py2coq.Unsupported -> the caller records a broken obligatio
 import ast
 import copy
 import os
+import re
 import textwrap
 
 import py2coq
@@ -97,7 +98,7 @@ HEADER = """(* GENERATED by tools/gen_c01bal.py from
 From Coq Require Import ZArith List Bool String.
 From OV Require Import Model.Num Model.Pressure Gen.PressureGen.
 Import ListNotations.
-""" + PRELUDE + """
+""" + PRELUDE + "@PRELUDE3@" + """
 Section Gen.
 Context {T : Type} (N : NumOps T).
 """
@@ -105,6 +106,7 @@ FOOTER = """
 End Gen.
 """
 
+ASSUMPTIONS = []              # modelling conventions the last translation relied on (reported as trusted)
 ROW = "ROW"                     # the pseudo-variable standing for instruction_form.port_pressure
 LOOPNAMES = {("_",): "g_bal_body", ("uop",): "g_bal_uop"}
 
@@ -182,6 +184,12 @@ class BalUnit(ImpUnit):
             return "(list %s)" % self.coq_type(t[4:-1])
         if t.startswith("opt["):
             return "(option %s)" % self.coq_type(t[4:-1])
+        if t == "numinf":
+            return "(option T)"
+        if t == "none":
+            return "unit"                   # only met in the trial pass of a loop (its text is discarded)
+        if t == "REC":
+            return "((list (@instr T)) -> nat -> res (list (@instr T)))"
         return ImpUnit.coq_type(self, t)
 
 
@@ -432,6 +440,9 @@ class BalTr(ImpTr):
         return name
 
     def s_for(self, s, rest, tail):
+        return self.for_core(s, False) + self.stmts(rest, tail)
+
+    def for_core(self, s, trial):
         ln = s.lineno
         if s.orelse:
             raise Unsupported("for/else at line %d" % ln)
@@ -495,14 +506,18 @@ class BalTr(ImpTr):
             self.loop_state.pop()
             self.pending = saved_pending
         for n in state:
-            if self.env.get(n) != saved_env[n]:
+            if self.env.get(n) != saved_env[n] and not trial:
                 raise Unsupported("variable %s changes type in a loop at line %d" % (n, ln))
+            if trial:
+                saved_env[n] = self.env.get(n, saved_env[n])
         self.env = saved_env                                          # loop-local names are dropped (a later use fails closed)
         for n in target_names + [n for n in body_assigned if n not in state]:
             self.env.pop(n, None)
         name = self.loop_name(target_names)
         st_t = self.state_type(state, saved_env)
-        ptext = "".join(" (%s : %s)" % (self.unit.ident(p), self.unit.coq_type(saved_env[p])) for p in params)
+        extras = [p for p in self.extra_params if re.search(r"(?<![A-Za-z0-9_])%s(?![A-Za-z0-9_])" % p, body)]
+        ptext = "".join(" (%s : %s)" % (p, self.unit.coq_type(self.extra_params[p])) for p in extras)
+        ptext += "".join(" (%s : %s)" % (self.unit.ident(p), self.unit.coq_type(saved_env[p])) for p in params)
         if is_range:
             head = "Definition %s%s (st_ : %s) : res (bool * %s)%%type :=\n" % (name, ptext, st_t, st_t)
             opener = self.open_state(state)
@@ -510,9 +525,9 @@ class BalTr(ImpTr):
             head = "Definition %s%s (x_ : %s) (st_ : %s) : res %s :=\n" % (name, ptext, self.unit.coq_type(elt), st_t, st_t)
             opener = "let %s := x_ in\n" % pat + self.open_state(state)
         self.defs.append("(* body of the loop at line %d *)\n" % ln + head + textwrap.indent(opener + body, "  ") + ".\n")
-        call = "(%s%s)" % (name, "".join(" " + self.unit.ident(p) for p in params))
+        call = "(%s%s%s)" % (name, "".join(" " + p for p in extras), "".join(" " + self.unit.ident(p) for p in params))
         text = "%s <- %s %s %s %s ;;\n" % (self.bind_pat(state), "py_loop" if is_range else "py_for", it, self.tuple_of(state), call)
-        return pre + text + self.stmts(rest, tail)
+        return pre + text
 
 
 # ------------------------------------------------------------------ driver
@@ -647,9 +662,10 @@ def gen_balance(repo):
     if [x.arg for x in a.args] != ["self", "kernel", "start"] or [ast.unparse(d) for d in a.defaults] != ["0"] or a.vararg or a.kwarg \
             or a.kwonlyargs or a.posonlyargs or fdef.decorator_list:
         raise Unsupported("signature of assign_optimal_throughput changed")
-    parts = gen_uops(u, fdef)
+    parts, assumptions = gen_full(u, fdef)
+    ASSUMPTIONS[:] = assumptions
     out = ["(* translated from %s:%d (ArchSemantics.assign_optimal_throughput) *)" % (sem, fdef.lineno)] + parts
-    return HEADER.replace("@SRC@", sem) + "\n" + "\n".join(out) + FOOTER
+    return HEADER.replace("@SRC@", sem).replace("@PRELUDE3@", PRELUDE3) + "\n" + "\n".join(out) + FOOTER
 
 
 def generate(repo, outdir):
@@ -670,16 +686,6 @@ def generate(repo, outdir):
             if os.path.exists(q):
                 os.remove(q)
         return {"BalanceGen.v": (False, "%s: %s" % (type(e).__name__, e))}
-
-
-if __name__ == "__main__":
-    import sys
-    r = generate(sys.argv[1] if len(sys.argv) > 1 and not sys.argv[1].startswith("-") else "/repo",
-                 os.path.join(os.path.dirname(os.path.abspath(__file__)), "../coq/Gen"))
-    for k, (ok, t) in r.items():
-        print(k, "ok" if ok else t)
-        if ok and "-v" in sys.argv:
-            print(t)
 
 
 # ====================================================================== stage 3: the whole function
@@ -770,6 +776,20 @@ SNAP = ("env", "pending", "loop_iters", "ntemp", "closures", "fresh", "aliased",
         "loop_state", "lifted_names", "atypes", "shared", "refined", "assumptions", "extra_params", "view", "nsc")
 
 
+def tjoin(a, b):
+    """least common type of two assignments to one variable (None: there is none)"""
+    if a == b:
+        return a
+    for x, y in ((a, b), (b, a)):
+        if x == "none" and not y.startswith("opt[") and y != "numinf":
+            return "opt[%s]" % y
+        if x.startswith("opt[") and y in ("none", x[4:-1]):
+            return x
+        if x == "numinf" and y in ("num", "int"):
+            return "numinf"
+    return None
+
+
 def reads(node, name):
     return [n for n in ast.walk(node) if isinstance(n, ast.Name) and n.id == name and isinstance(n.ctx, ast.Load)]
 
@@ -809,6 +829,7 @@ class FullTr(BalTr):
         self.refined = {}             # unparsed attribute path -> scrutinee variable holding its (refined) value
         self.assumptions = []
         self.nsc = 0
+        self.trial = 0
         self.result = "kernel"
 
     # ----------------------------------------------------------------- helpers
@@ -1001,26 +1022,36 @@ class FullTr(BalTr):
             name = target.id
             if name in self.loop_iters:
                 raise Unsupported("assignment to the iterated list %s at line %d" % (name, ln))
-            for k in [k for k in self.refined if k.startswith(name + "[") or k.startswith(name + ".")]:
-                del self.refined[k]
             is_pseudo = isinstance(value, ast.Call) and isinstance(value.func, ast.Name) and value.func.id in PSEUDO
             v, t = self.expr(value)
+            for k in [k for k in self.refined if k.startswith(name + "[") or k.startswith(name + ".")]:
+                del self.refined[k]               # the value was computed with the old object
+            t0 = t
             self.atypes.setdefault(name, []).append(t)
-            if name in self.env:
+            if name in self.env and self.trial and self.env[name] != t:
+                j = tjoin(self.env[name], t)
+                if j is None:
+                    raise Unsupported("variable %s changes type (%s -> %s) at line %d" % (name, self.env[name], t, ln))
+                t = j
+            elif name in self.env:
                 v = self.coerce_to(v, t, self.env[name], ln)
                 t = self.env[name]
             self.closures.pop(name, None)
             pre = self.take()
             self.env[name] = t
             if not is_pseudo and (t.startswith("list[") or t.startswith("opt[list[") or t.startswith("dict[")):
-                if isinstance(value, ast.Name):
+                if t0 == "none":
+                    self.shared.discard(name)                     # no object at all
+                    self.fresh.discard(name)
+                elif isinstance(value, ast.Name):
                     self.shared.update((name, value.id))          # two names, one object
                     self.fresh.discard(name)
                 elif self.is_fresh(value):
                     self.fresh.add(name)
                     self.shared.discard(name)
                 else:
-                    raise Unsupported("list variable %s bound to a value whose sharing is unknown at line %d" % (name, ln))
+                    self.shared.add(name)                         # sharing unknown: the variable may be read, never mutated
+                    self.fresh.discard(name)
             return pre + "let %s := %s in\n" % (self.unit.ident(name), v)
         if isinstance(target, ast.Subscript) and isinstance(target.value, ast.Name) and target.value.id in self.shared:
             raise Unsupported("store into %s while another variable shares the object at line %d" % (target.value.id, ln))
@@ -1112,3 +1143,162 @@ class FullTr(BalTr):
         a, b = a.replace("\0JOIN", out), b.replace("\0JOIN", out)
         return pre0 + pre + "%s <- (%s) ;;\n" % (self.bind_pat(keep), shape(textwrap.indent(a, "  "), textwrap.indent(b, "  "))) \
             + self.stmts(rest, tail)
+
+    def predeclared_type(self, name, ln):
+        ts = set(self.atypes.get(name, []))
+        if "numinf" in ts and ts <= {"numinf", "num", "int"}:
+            return "numinf"
+        rest = ts - {"none"}
+        if "none" in ts and len(rest) == 1 and not list(rest)[0].startswith("opt["):
+            return "opt[%s]" % list(rest)[0]
+        raise Unsupported("variable %s is first bound inside the loop at line %d and read after it, with types %s (no `unbound` "
+                          "representation)" % (name, ln, sorted(ts)))
+
+    def s_for(self, s, rest, tail):
+        ln = s.lineno
+        # ---- special loop headers
+        instr_loop = ast.unparse(s.target) == "(idx, instruction_form)"
+        if instr_loop:
+            if ast.unparse(s.iter) != "enumerate(kernel[start:], start)" or self.env.get("kernel") != "list[instr]" \
+                    or self.env.get("start") != "idx" or "idx" in self.env or "instruction_form" in self.env:
+                raise Unsupported("instruction loop header at line %d" % ln)
+            # by the aliasing fact instruction_form is kernel[idx] (Normalize2): the loop runs over the indices
+            s = copy.copy(s)
+            s.target = ast.copy_location(ast.Name(id="idx", ctx=ast.Store()), s.target)
+            s.iter = ast.copy_location(ast.Name(id="IDXS", ctx=ast.Load()), s.iter)
+            self.env["IDXS"] = "list[idx]"
+            opener = "let %s := (seq %s (List.length %s - %s)) in\n" % (
+                self.unit.ident("IDXS"), self.unit.ident("start"), self.unit.ident("kernel"), self.unit.ident("start"))
+            out = opener + self.loop2(s, rest, tail, drop=["IDXS"])
+            return out
+        if ast.unparse(s.iter) == "kernel[idx].port_uops":
+            if self.view or ROW in self.env or not isinstance(s.target, ast.Name):
+                raise Unsupported("micro-op loop header at line %d" % ln)
+            first = s.body[0] if s.body else None
+            if not (isinstance(first, ast.Assign) and isinstance(first.value, ast.Subscript) and isinstance(first.value.value, ast.Name)
+                    and first.value.value.id == s.target.id and isinstance(first.value.slice, ast.Constant)):
+                raise Unsupported("the micro-op loop body must start by subscripting the micro-op (TypeError on a dict key) at line %d" % ln)
+            if not (rest and isinstance(rest[0], ast.Assign) and isinstance(rest[0].value, ast.Call)
+                    and isinstance(rest[0].value.func, ast.Name) and rest[0].value.func.id == "__rowback"):
+                raise Unsupported("row view is not written back after the micro-op loop at line %d" % ln)
+            check_row_scope(s.body)
+            k, i = self.unit.ident("kernel"), self.unit.ident("idx")
+            ins = self.hoist("nth_res %s %s" % (k, i))
+            us = self.hoist("py_iter_uops (i_uops %s)" % ins)
+            pre = self.take()
+            s = copy.copy(s)
+            s.iter = ast.copy_location(ast.Name(id="UOPS", ctx=ast.Load()), s.iter)
+            self.env["UOPS"] = "list[%s]" % UOP_T
+            self.env[ROW] = "list[num]"
+            self.may_mutate.add(ROW)
+            self.view = ("kernel", "idx")
+            opener = "let %s := %s in\nlet %s := (i_pp %s) in\n" % (self.unit.ident("UOPS"), us, self.unit.ident(ROW), ins)
+            return pre + opener + self.loop2(s, rest, tail, drop=["UOPS"])
+        return self.loop2(s, rest, tail)
+
+    def loop2(self, s, rest, tail, drop=()):
+        """two passes: the first (trial, output discarded) finds the types of the variables first bound in the body and
+        read after the loop, and what the body leaves shared (back edge)"""
+        ln = s.lineno
+        body_assigned = assigned(s.body)
+        target_names = [n.id for n in ast.walk(s.target) if isinstance(n, ast.Name)]
+        unbound = [n for n in body_assigned if n not in self.env and n not in target_names
+                   and any(reads(r, n) for r in rest)]
+        entry_shared = set(self.shared)
+        types = {}
+        for _ in range(4):
+            snap = self.snapshot()
+            self.atypes = {}
+            self.shared = set(entry_shared)
+            self.trial += 1
+            err = None
+            try:
+                self.for_core(s, True)
+            except Unsupported as e:
+                err = e
+            self.trial -= 1
+            atypes, end_shared = self.atypes, set(self.shared)
+            self.restore(snap)
+            if err is not None:
+                if unbound:
+                    raise Unsupported("loop at line %d binds %s for later use and its body does not translate: %s" % (ln, unbound, err))
+                break
+            types = {n: self.predeclared_type_from(atypes, n, ln) for n in unbound}
+            if entry_shared | end_shared == entry_shared:
+                break
+            entry_shared |= end_shared
+        pre = ""
+        for n in unbound:
+            definite(s.body, n, False)
+            self.env[n] = types[n]
+            pre += "let %s := None in\n" % self.unit.ident(n)
+            self.assumptions.append("%s is first bound inside the loop at line %d and read after it: an unbound %s reads as %s "
+                                    "(UnboundLocalError is not modelled; the hand model does the same)"
+                                    % (n, ln, n, "sys.maxsize" if types[n] == "numinf" else "None"))
+        self.shared = set(entry_shared)
+        text = self.for_core(s, False)
+        self.shared |= entry_shared
+        for n in drop:
+            self.env.pop(n, None)
+        return pre + text + self.stmts(rest, tail)
+
+    def predeclared_type_from(self, atypes, name, ln):
+        saved, self.atypes = self.atypes, atypes
+        try:
+            return self.predeclared_type(name, ln)
+        finally:
+            self.atypes = saved
+
+    def translate(self):
+        body = self.stmts(self.fdef.body, lambda: "Ok %s" % self.unit.ident(self.result))
+        if self.pending:
+            raise Unsupported("internal: pending hoists at the end of the function")
+        params = "".join(" (%s : %s)" % (self.unit.ident(p), self.unit.coq_type(t)) for p, t in self.sig["params"].items())
+        return ("Fixpoint %s (fuel : nat) (self_ports : (list string))%s {struct fuel} : res %s :=\n"
+                "  match fuel with\n  | O => Err EFuel\n  | S fuel' =>\n    let rec_ := %s fuel' self_ports in\n%s\n  end."
+                % (self.sig["coqname"], params, self.unit.coq_type(self.ret), self.sig["coqname"], textwrap.indent(body, "    ")))
+
+
+LOOPNAMES.update({("idx",): "g_bal_instr", ("port_util_alt",): "g_bal_alt", ("i", "instr"): "g_bal_copy"})
+
+
+def gen_full(unit, fdef):
+    """stage 3: the whole function as g_assign_optimal_throughput fuel self_ports kernel start"""
+    outer, inner = find_loops(fdef)
+    alias_guard(outer)
+    f2 = copy.deepcopy(fdef)
+    outer2, inner2 = find_loops(f2)
+    Normalize({"instruction_form"}).visit(inner2)            # the row view inside the micro-op loop
+    f2 = Normalize2().visit(f2)
+    ast.fix_missing_locations(f2)
+    imports = {}
+    for n in unit.tree.body:
+        if isinstance(n, ast.Import):
+            for a in n.names:
+                imports[a.asname or a.name] = a.name
+        if isinstance(n, ast.ImportFrom):
+            for a in n.names:
+                imports[a.asname or a.name] = "%s.%s" % (n.module, a.name)
+    rebound = set(n.name for n in ast.walk(unit.tree) if isinstance(n, (ast.FunctionDef, ast.ClassDef))) | \
+        set(t.id for n in unit.tree.body if isinstance(n, ast.Assign) for t in n.targets if isinstance(t, ast.Name))
+    unit.has_sys = imports.get("sys") == "sys" and "sys" not in rebound
+    unit.has_deepcopy = imports.get("deepcopy") == "copy.deepcopy" and "deepcopy" not in rebound
+    sig = {"params": {"kernel": "list[instr]", "start": "idx"}, "ret": "list[instr]", "coqname": "g_assign_optimal_throughput", "call": None}
+    tr = FullTr(unit, f2, sig)
+    consts = setup_constants(unit, tr, fdef)
+    const_lines = set(node.lineno for node, _ in consts.values())
+    f2.body = [s for s in f2.body if not (isinstance(s, ast.Assign) and s.lineno in const_lines
+                                          and isinstance(s.targets[0], ast.Name) and s.targets[0].id in consts)]
+    tr.may_mutate.add("kernel")
+    text = tr.translate()
+    return tr.defs + [text + "\n"], tr.assumptions
+
+
+if __name__ == "__main__":
+    import sys
+    r = generate(sys.argv[1] if len(sys.argv) > 1 and not sys.argv[1].startswith("-") else "/repo",
+                 os.path.join(os.path.dirname(os.path.abspath(__file__)), "../coq/Gen"))
+    for k, (ok, t) in r.items():
+        print(k, "ok" if ok else t)
+        if ok and "-v" in sys.argv:
+            print(t)
